@@ -22,6 +22,6 @@ Full == {"@", "#", "~", "{", "}", "(", ")", "%", "|", "=", ">", "-", ":", ".", "
 \* block-comment terminators through runs of dashes, with content after them
 Comments == {"[", "-", "]", "a"}
 \* what may follow a component: notes, braces, another marker
-Notes == {"~", "@", "(", ")", "a", "{", "}"}
+Notes == {"~", "@", "#", "(", ")", "a", "{", "}"}
 Reduced == {"@", "~", "{", "}", "(", ")", "%", "|", "=", ">", "-", ":", "[", "]", "BS", "a", "1", " ", "LF", "L2"}
 =============================================================================
